@@ -65,10 +65,10 @@ theorem pot_extend (A : Alg α) (edge : Nat → Nat → Option α) (hE : EdgesOK
       · rw [A.assoc, ← A.assoc (ψ p), (hinv p).1, A.one_mul, hE.mul_inv p n M hpn]
       · rw [A.assoc, ← A.assoc (A.inv M), hE.inv_mul p n M hpn, A.one_mul, (hinv p).2]
       · intro M' hM'
-        simp only [stepElem, hpn, Option.some.injEq] at hM'
+        simp only [stepElem, hpn, Option.some.injEq, Generated.Glue.orientDirect, Generated.Glue.orientReverse] at hM'
         rw [← hM', A.assoc, (hinv p).1, A.mul_one]
       · intro M' hM'
-        simp only [stepElem, hnp', hpn, Option.some.injEq] at hM'
+        simp only [stepElem, hnp', hpn, Option.some.injEq, Generated.Glue.orientDirect, Generated.Glue.orientReverse] at hM'
         rw [← hM', ← A.assoc, (hinv p).1, A.one_mul]
     | none =>
       cases hnp' : edge n p with
@@ -77,10 +77,10 @@ theorem pot_extend (A : Alg α) (edge : Nat → Nat → Option α) (hE : EdgesOK
         · rw [A.assoc, ← A.assoc (ψ p), (hinv p).1, A.one_mul, hE.inv_mul n p M hnp']
         · rw [A.assoc, ← A.assoc M, hE.mul_inv n p M hnp', A.one_mul, (hinv p).2]
         · intro M' hM'
-          simp only [stepElem, hpn, hnp', Option.some.injEq] at hM'
+          simp only [stepElem, hpn, hnp', Option.some.injEq, Generated.Glue.orientDirect, Generated.Glue.orientReverse] at hM'
           rw [← hM', A.assoc, (hinv p).1, A.mul_one]
         · intro M' hM'
-          simp only [stepElem, hnp', Option.some.injEq] at hM'
+          simp only [stepElem, hnp', Option.some.injEq, Generated.Glue.orientDirect, Generated.Glue.orientReverse] at hM'
           rw [← hM', ← A.assoc, (hinv p).1, A.one_mul]
       | none =>
         refine ⟨A.one, A.one, ⟨A.one_mul _, A.one_mul _⟩, ?_, ?_⟩
@@ -145,7 +145,7 @@ theorem chain_walk (A : Alg α) (edge : Nat → Nat → Option α) (links : List
     simp only [List.getLast_singleton]
     rw [(hp.1 s).1, A.one_mul, h]
   | t :: p, s, m, r, hw, h => by
-    simp only [List.zip_cons_cons, chain] at h
+    simp only [List.zip_cons_cons, chain, Generated.Glue.orientUpdate] at h
     have hw' : IsWalk links (t :: p) := by
       unfold IsWalk at hw ⊢
       exact (List.isChain_cons_cons.mp hw).2
